@@ -354,7 +354,7 @@ def write_trace(path, records):
         json.dump(records, f, separators=(',', ':'))
 
 
-def validate_trace(trace_spec, records, cfg=None, timeout=1800, extra_env=None, heap='6g', batch=None, parallel=8, groups=None):
+def validate_trace(trace_spec, records, cfg=None, timeout=1800, extra_env=None, heap='6g', batch=None, parallel=8, groups=None, group_weight=None):
     """Write records to scratch files, run TLC on the trace spec over them (in
     parallel batches) and return (verdicts, stats).  verdicts is a dict
     id -> sorted list of violated clause names (only for bad records);
@@ -365,8 +365,15 @@ def validate_trace(trace_spec, records, cfg=None, timeout=1800, extra_env=None, 
     if groups is not None:
         # groups: lists of records that must stay together (one trace each); pack them into <= parallel chunks
         chunks = [[] for _ in range(min(parallel, max(1, len(groups))))]
-        for g in sorted(groups, key=len, reverse=True):
-            min(chunks, key=len).extend(g)
+        if group_weight is None:
+            for g in sorted(groups, key=len, reverse=True):
+                min(chunks, key=len).extend(g)
+        else:       # pack by an estimate of the cost of judging a group (longest processing time first)
+            loads = [0] * len(chunks)
+            for g in sorted(groups, key=group_weight, reverse=True):
+                j = min(range(len(chunks)), key=lambda q: loads[q])
+                chunks[j].extend(g)
+                loads[j] += group_weight(g)
         chunks = [c for c in chunks if c]
     else:
         batch = batch or max(1, (len(records) + parallel - 1) // parallel)
